@@ -103,7 +103,7 @@ def facts_dir(config="default", cargo_args=None, rustflags=None, repo=None, extr
         if os.path.isdir(d):
             shutil.rmtree(d)
         # drop old cache entries (keep disk usage bounded)
-        entries = sorted((os.path.getmtime(os.path.join(CACHE, e)), e) for e in os.listdir(CACHE) if os.path.isdir(os.path.join(CACHE, e)))
+        entries = sorted((os.path.getmtime(os.path.join(CACHE, e)), e) for e in os.listdir(CACHE) if os.path.isdir(os.path.join(CACHE, e)) and not e.startswith("witness"))
         for mt, e in entries[:-14]:
             if time.time() - mt > 1800:  # never an entry another running check may still be reading
                 shutil.rmtree(os.path.join(CACHE, e), ignore_errors=True)
